@@ -38,3 +38,12 @@ Theorem C08_cell_order_irrelevant :
   ser_cell imgs = ser_cell imgs'.
 Proof. exact ser_cell_perm. Qed.
 Print Assumptions C08_cell_order_irrelevant.
+
+(* the composeinfo forest: the order in which the top-level variants were added (the iteration order of the container) is not
+   content - the whole document is the same *)
+From PM Require Import Model.ComposeInfo Proofs.CiRoundtrip.
+Theorem C08_composeinfo_variant_order_irrelevant :
+  forall x vs', Permutation (ci_variants x) vs' -> NoDup (map fst (ci_variants x)) ->
+  dump_ci x = dump_ci {| ci_compose := ci_compose x; ci_release := ci_release x; ci_base_product := ci_base_product x; ci_variants := vs' |}.
+Proof. exact dump_ci_perm. Qed.
+Print Assumptions C08_composeinfo_variant_order_irrelevant.
